@@ -26,8 +26,11 @@ type handlerResult struct {
 	typ  int
 }
 
+// cachedArray is rebuilt for every run (see runC04): executors that walk a handler's array move its read cursor.
+var cachedArray *redis.Message
+
 func drawHandlerResult(t *sim.Tape) handlerResult {
-	h := handlerResult{kind: t.Draw(11, "hkind")}
+	h := handlerResult{kind: t.Draw(12, "hkind")}
 	h.text = hostileText[t.Draw(len(hostileText), "htext")]
 	if t.Draw(4, "pad") == 3 { // 0 stays the cheap choice
 		// the hostile bytes at the very end of a text whose reply line ends around a power of two
@@ -69,6 +72,8 @@ func (h handlerResult) apply(c *wl.Call) (*redis.Message, error, bool) {
 		return redis.NewErrorMessage(errors.New(h.text)), nil, true
 	case 9: // bulk with hostile bytes
 		return redis.NewBulkMessage(h.text), nil, true
+	case 11: // one array message object kept by the handler and returned again and again (a caching store)
+		return cachedArray, nil, true
 	case 10: // message of any line/bulk type whose payload the handler set itself (exported proto API)
 		mt := []proto.MessageType{proto.StringMessage, proto.ErrorMessage, proto.IntegerMessage, proto.BulkMessage}[h.typ]
 		return proto.NewMessageWithType(mt).SetBytes([]byte(h.text)), nil, true
@@ -174,6 +179,7 @@ func runC04(t *testing.T, tape *sim.Tape, tier string) *Outcome {
 		}
 	}
 	defer func() { resp.LaxInteger = false }()
+	cachedArray = redis.NewStringArrayMessage([]string{"a", "b", "1", "c", "2", "d"})
 	c.D.RawResult = func(call *wl.Call) (*redis.Message, error, bool) {
 		if call.Seq < len(plan) {
 			m, err, ok := plan[call.Seq].apply(call)
@@ -269,7 +275,7 @@ func init() {
 	register(&Check{
 		ID: "C04", Bubble: true, Run: runC04,
 		Runs:   map[string]int{"quick": 40000, "thorough": 1500000},
-		Rule:   "a case is one (client value stream, handler-result plan, delivery schedule) triple: client values of every RESP type incl. odd command arrays and hostile bytes; per handler call an injected result (hostile status/error text incl. texts padded so that the reply line ends within a few bytes of a power of two between 64 B and 64 KiB, arbitrary value tree, nil, error, message+error, floats incl. Inf/NaN, status/error/integer/bulk messages whose payload the handler set through proto.Message.SetBytes); one run in eight has the client stop reading behind a small window for 1 s .. 1 h of simulated time before it reads on; distinct = distinct (shape, chunking, stream hash) signatures; non-trivial = handler faults enabled or chunked delivery",
+		Rule:   "a case is one (client value stream, handler-result plan, delivery schedule) triple: client values of every RESP type incl. odd command arrays and hostile bytes; per handler call an injected result (hostile status/error text incl. texts padded so that the reply line ends within a few bytes of a power of two between 64 B and 64 KiB, arbitrary value tree, nil, error, message+error, floats incl. Inf/NaN, status/error/integer/bulk messages whose payload the handler set through proto.Message.SetBytes, one cached array message object returned by many calls); one run in eight has the client stop reading behind a small window for 1 s .. 1 h of simulated time before it reads on; distinct = distinct (shape, chunking, stream hash) signatures; non-trivial = handler faults enabled or chunked delivery",
 		Real:   []string{"redis.Server connection loop, dispatch, executors, error construction, redis/proto serializer"},
 		Stub:   []string{"transport: simulated net.Conn", "handler: double returning injected results built with the public constructors"},
 		Assume: []string{"an integer message whose text a handler set to non-numeric bytes is judged on framing only (one complete line without CR/LF): the framework cannot make it a number", "arrays are built with NewArrayMessage/Append of non-nil messages"},
